@@ -48,6 +48,29 @@ Theorem C09_send_tx :
 Proof. exact send_tx. Qed.
 Print Assumptions C09_send_tx.
 
+(* 1b. The success path, fully determined.  With a nonce in the request and a wallet that signs:
+       exactly the one raw-transaction frame.  Without a nonce, a backend that answers the count
+       query with a result v (any echoed id) that parses to n, and a wallet that signs the
+       transaction carrying nonce n: exactly the count query followed by the raw transaction. *)
+Theorem C09_send_tx_exact :
+  forall parse_int accounts sign_with backend chain rq id p0 rest tx f a,
+    rq_id rq = Some id -> rq_method rq = bs "eth_sendTransaction" -> rq_params rq = p0 :: rest ->
+    decode_transaction parse_int p0 = Ok tx -> tx_from tx = Some f -> dec_address f = Ok a ->
+    (forall n raw,
+       tx_nonce tx = Some n -> sign_with a tx chain = Ok raw ->
+       exists resp err,
+         processRPC parse_int accounts sign_with backend chain (Some rq) = Ok (Some resp, err, [raw_frame raw]) /\
+         (resp, err) = fst (SyncRequest backend (send_raw_request rq raw))) /\
+    (forall echo v n raw,
+       tx_nonce tx = None -> backend (count_frame a) = reply_result echo v -> v <> JNull ->
+       dec_hexint parse_int v = Ok n -> sign_with a (set_nonce tx (Some n)) chain = Ok raw ->
+       exists resp err,
+         processRPC parse_int accounts sign_with backend chain (Some rq)
+         = Ok (Some resp, err, [count_frame a; raw_frame raw]) /\
+         (resp, err) = fst (SyncRequest backend (send_raw_request rq raw))).
+Proof. exact send_tx_exact. Qed.
+Print Assumptions C09_send_tx_exact.
+
 (* 2. Nothing is submitted on failure.  (a) A raw-transaction frame leaves the proxy for an
       eth_sendTransaction request ONLY IF the parameter decoded, `from` parsed to an address the
       wallet holds, the wallet signed, and the bytes recover to that address with the requested
@@ -111,6 +134,19 @@ Theorem C09_passthrough :
       rs_id resp = Some id /\ (resp, err) = fst (SyncRequest backend rq).
 Proof. exact passthrough_spec. Qed.
 Print Assumptions C09_passthrough.
+
+(* 4b. ... from the bytes on the wire to the frame at the backend: a body that lexes to the request
+       object {jsonrpc, id, method, params} with a non-null id and a method other than the three
+       special ones yields exactly the frame (method, params), and a reply carrying that id. *)
+Theorem C09_passthrough_end_to_end :
+  forall parse_int lex accounts sign_with backend chain body order ver id m ps,
+    (b2n (sniffFirstByte body) =? 91)%N = false ->
+    lex body = Some (request_tree ver id m ps) -> id <> JNull -> special_method m = false ->
+    exists status tree,
+      rpcHandler parse_int lex accounts sign_with backend chain body order = Ok (status, tree, [[mkFrame m ps]]) /\
+      tree_member (bs "id") tree = Some id.
+Proof. exact passthrough_end_to_end. Qed.
+Print Assumptions C09_passthrough_end_to_end.
 
 (* 5. Ids.  Whatever the method, the backend (so: whatever id it echoes) and the wallet, a request
       carrying an id is answered by an object whose id member is that id — for a single request and
